@@ -214,6 +214,14 @@ func FindProtocolVersion(data []byte) string {
 // result column that is not binary (a scalar-returning method) — so the
 // caller can forward the body unchanged.
 func ReadUnaryResult(data []byte) (schema *arrow.Schema, result []byte, ok bool) {
+	// A corrupt offsets buffer passes the IPC reader (it does not validate
+	// offsets) and only fails when the value is sliced out below. Stay lenient:
+	// report not-a-result instead of panicking in the caller's goroutine.
+	defer func() {
+		if recover() != nil {
+			schema, result, ok = nil, nil, false
+		}
+	}()
 	reader, err := ipc.NewReader(bytes.NewReader(data))
 	if err != nil {
 		return nil, nil, false
